@@ -7,11 +7,14 @@ VARIABLES nmsg,
 
 Ids == 1..(Cardinality(Reqs) + 1)           \* one id more than requests: an id nobody owns
 (* requests are submitted in order; the id is the next unused one (the code's ids are replayed from the real run) *)
-NextReq == IF \E r \in Reqs : st[r] = "new" THEN CHOOSE r \in Reqs : st[r] = "new" /\ \A q \in Reqs : st[q] = "new" => r <= q ELSE 0
+First(S) == IF \E r \in S : st[r] = "new" THEN {CHOOSE r \in S : st[r] = "new" /\ \A q \in S : st[q] = "new" => r <= q} ELSE {}
+(* the next ordinary request and the next configuration request, in either order *)
+NextReqs == First(Reqs \ ConfReqs) \cup First(ConfReqs)
 FreshId == CHOOSE i \in Ids : i \notin usedIds /\ \A j \in Ids : j \notin usedIds => i <= j
 
-Msgs == {[k |-> "resp", id |-> i, status |-> s, hashok |-> h, fits |-> f] : i \in (usedIds \cup {Cardinality(Reqs) + 1}), s \in {0, 257}, h \in BOOLEAN, f \in BOOLEAN}
+Msgs == {[k |-> "resp", id |-> i, status |-> s, hashok |-> h, fits |-> f, conf |-> 0] : i \in (usedIds \cup {Cardinality(Reqs) + 1}), s \in {0, 257}, h \in BOOLEAN, f \in BOOLEAN}
         \cup {[k |-> "errpdu", status |-> 258], [k |-> "badmac"], [k |-> "garbage"]}
+        \cup (IF ConfReqs = {} THEN {} ELSE {[k |-> "conf", conf |-> v] : v \in {1, 2}})
 
 (* HTTP: how an exchange may end: transfer error, HTTP error status, a body of zero, one or two PDUs, possibly followed by junk *)
 RespMsgs == {m \in Msgs : m.k = "resp"}
@@ -20,8 +23,8 @@ Outcomes(r) == {[x |-> r, res |-> k, msgs |-> <<>>, junk |-> FALSE] : k \in {"cu
                \cup {[x |-> r, res |-> "body", msgs |-> b, junk |-> j] : b \in Bodies, j \in BOOLEAN}
 MCInit == Init /\ nmsg = 0 /\ badFrom = {} /\ ran = FALSE
 BadBody(e) == \E i \in DOMAIN e.msgs : e.msgs[i].k \in {"badmac", "garbage"}
-MCNext == \/ (NextReq # 0 /\ Add(NextReq, FreshId) /\ UNCHANGED <<nmsg, badFrom, ran>>)
-          \/ (\E h \in Reqs \cup {0} : Run(h) /\ UNCHANGED <<nmsg, badFrom, ran>>)
+MCNext == \/ (\E r \in NextReqs : Add(r, FreshId) /\ UNCHANGED <<nmsg, badFrom, ran>>)
+          \/ (\E h \in Reqs \cup {0, -1} : Run(h) /\ UNCHANGED <<nmsg, badFrom, ran>>)
           \/ (\E m \in Msgs : nmsg < MaxMsgs /\ Len(wire) < MaxWire /\ ServerWrites(m) /\ nmsg' = nmsg + 1 /\ UNCHANGED <<badFrom, ran>>)
           \/ (\E r \in Reqs : \E e \in Outcomes(r) : nmsg < MaxMsgs /\ ExchangeCompletes(e) /\ nmsg' = nmsg + 1
                                                        /\ badFrom' = (IF BadBody(e) THEN badFrom \cup {r} ELSE badFrom) /\ UNCHANGED ran)
@@ -38,8 +41,8 @@ mcvars == <<vars, nmsg, badFrom, ran>>
 (* assumptions of the liveness claim: the caller calls run at least once between two clock ticks; the environment stops changing after       *)
 (* AddUntil and the poll() system call itself does not fail (pollm = "err" is left out: it is a transient condition)                                             *)
 EnvQuiet == clock <= AddUntil
-LiveNext == \/ (NextReq # 0 /\ EnvQuiet /\ Add(NextReq, FreshId) /\ UNCHANGED <<nmsg, badFrom, ran>>)
-            \/ (\E h \in Reqs \cup {0} : Run(h) /\ ran' = TRUE /\ UNCHANGED <<nmsg, badFrom>>)
+LiveNext == \/ (EnvQuiet /\ \E r \in NextReqs : Add(r, FreshId) /\ UNCHANGED <<nmsg, badFrom, ran>>)
+            \/ (\E h \in Reqs \cup {0, -1} : Run(h) /\ ran' = TRUE /\ UNCHANGED <<nmsg, badFrom>>)
             \/ (~Http /\ EnvQuiet /\ \E m \in Msgs : nmsg < MaxMsgs /\ Len(wire) < MaxWire /\ ServerWrites(m) /\ nmsg' = nmsg + 1 /\ UNCHANGED <<badFrom, ran>>)
             \/ (EnvQuiet /\ \E r \in Reqs : \E e \in Outcomes(r) : nmsg < MaxMsgs /\ ExchangeCompletes(e) /\ nmsg' = nmsg + 1 /\ UNCHANGED <<badFrom, ran>>)
             \/ (~Http /\ EnvQuiet /\ \E how \in {"closed", "reset"} : PeerEnds(how) /\ UNCHANGED <<nmsg, badFrom, ran>>)
@@ -47,13 +50,13 @@ LiveNext == \/ (NextReq # 0 /\ EnvQuiet /\ Add(NextReq, FreshId) /\ UNCHANGED <<
             \/ (EnvQuiet /\ \E m \in {"ok", "fail"} : SetOpen(m) /\ UNCHANGED <<nmsg, badFrom, ran>>)
             \/ (clock < MaxClock /\ ran /\ Tick(1) /\ ran' = FALSE /\ UNCHANGED <<nmsg, badFrom>>)
 FairSpec == /\ MCInit /\ [][LiveNext]_mcvars
-            /\ WF_mcvars(\E h \in Reqs \cup {0} : Run(h) /\ ran' = TRUE /\ UNCHANGED <<nmsg, badFrom>>)
+            /\ WF_mcvars(\E h \in Reqs \cup {0, -1} : Run(h) /\ ran' = TRUE /\ UNCHANGED <<nmsg, badFrom>>)
             /\ SF_mcvars(clock < MaxClock /\ ran /\ Tick(1) /\ ran' = FALSE /\ UNCHANGED <<nmsg, badFrom>>)
 EventuallyReturned == \A r \in Reqs : (st[r] \in Live) ~> (st[r] = "done")
 (* STRICT: expected to be violated when Http (finding F-C13-4) *)
 StrictOwnExchange == CauseOnOwnExchange(badFrom)
 (* the observation variable does not distinguish states *)
-View == <<st, id, addT, sndT, cause, sigok, sendq, respq, wire, conn, connT, rStart, rCount, peer, pollm, openm, clock, usedIds, ret, arrived, early, xdone, nmsg, badFrom, ran>>
+View == <<st, id, addT, sndT, cause, sigok, sendq, respq, wire, conn, connT, rStart, rCount, peer, pollm, openm, clock, usedIds, ret, arrived, early, pushed, cfg, xdone, nmsg, badFrom, ran>>
 Dbg1 == ~(st[2] = "resp")
 Dbg3 == ~(st[2] = "sent")
 Dbg4 == ~(st[2] = "queued")
